@@ -321,6 +321,24 @@ CONTROLS = [
 
 ALL_PROPS = ['C01', 'C03', 'C04', 'C05', 'C06', 'C08', 'C09', 'C10', 'C11', 'C13', 'C14', 'C15', 'C16', 'C17', 'C18', 'C19', 'C20']
 CONTROLS += [
+    C('silent-extract-helper-add-child', 'silent', ['C06', 'C10', 'C18', 'C13', 'C15', 'C01'], multi(
+        sub("        self._unordered_children.append(child)\n        child._parent = self\n        return child",
+            "        self._register_child(child)\n        return child", XE),
+        sub("    def find_child(self, name: Union['XMLElement', str], ordered: bool = False) -> 'XMLElement':\n",
+            "    def _register_child(self, child):\n        self._unordered_children.append(child)\n        child._parent = self\n\n"
+            "    def find_child(self, name: Union['XMLElement', str], ordered: bool = False) -> 'XMLElement':\n", XE)), None, 'bookkeeping of add_child extracted into a private helper'),
+    C('silent-extract-helper-remove', 'silent', ['C06', 'C10', 'C11', 'C18'], multi(
+        sub("            child.parent_xsd_element.xml_elements.remove(child)\n            child.parent_xsd_element = None\n",
+            "            self._detach_from_leaf(child)\n", XE),
+        sub("    def find_child(self, name: Union['XMLElement', str], ordered: bool = False) -> 'XMLElement':\n",
+            "    def _detach_from_leaf(self, child):\n        child.parent_xsd_element.xml_elements.remove(child)\n        child.parent_xsd_element = None\n\n"
+            "    def find_child(self, name: Union['XMLElement', str], ordered: bool = False) -> 'XMLElement':\n", XE)), None, 'leaf detach of remove extracted into a private helper'),
+    C('silent-extract-helper-final-checks', 'silent', ['C01', 'C18', 'C16', 'C17', 'C04'], multi(
+        sub("        if self.xsd_check:\n            self._final_checks(intelligent_choice=intelligent_choice)\n        self._create_et_xml_element()",
+            "        self._validate(intelligent_choice)\n        self._create_et_xml_element()", XE),
+        sub("    def find_child(self, name: Union['XMLElement', str], ordered: bool = False) -> 'XMLElement':\n",
+            "    def _validate(self, intelligent_choice):\n        if self.xsd_check:\n            self._final_checks(intelligent_choice=intelligent_choice)\n\n"
+            "    def find_child(self, name: Union['XMLElement', str], ordered: bool = False) -> 'XMLElement':\n", XE)), None, 'the validation step of to_string extracted into a private helper'),
     C('silent-reformat-all-modules', 'silent', ALL_PROPS, reformat_all_modules(), None, 'whole-program re-formatting'),
     C('silent-rename-all-locals-container', 'silent', ALL_PROPS, rename_all_locals(CC), None, 'every local of xmlchildcontainer.py renamed'),
     C('silent-rename-all-locals-parser', 'silent', ['C08', 'C09', 'C17', 'C19'], rename_all_locals(PA), None, 'every local of parser.py renamed'),
